@@ -30,10 +30,18 @@ func main() {
 		// parent: generator + framework; every case is executed by a supervised child process
 		// holding the real engine (its environment is read at package-init time)
 		sv := newSupervisor()
+		pv := newSupervisor() // a second engine process, in POLICIES mode, for the cases that start with `pinit`
+		pv.policies = true
 		code := 0
 		func() {
 			defer sv.shutdown()
-			proto.Main(proto.Harness{Rule: rule, Gen: gen, Exec: sv.exec})
+			defer pv.shutdown()
+			proto.Main(proto.Harness{Rule: rule, Gen: gen, Exec: func(c proto.Case, o *proto.Out) []string {
+				if len(c.Ops) > 0 && strings.HasPrefix(c.Ops[0], "pinit") {
+					return pv.exec(c, o)
+				}
+				return sv.exec(c, o)
+			}})
 		}()
 		os.Exit(code)
 	}
